@@ -50,11 +50,12 @@ Notation vm_skip := (vm_skip OG uranges).
 Notation in_fragment := (in_fragment OG extras uranges pp).
 Notation K := (K OG).
 Notation Cl := (Cl OG).
+Notation ClS := (ClS OG).
 Notation HE := (HE OG extras uranges pp HG).
 Notation fwd := (vm_refines_spec_psim OG extras uranges pp cfg w Hcfg HG).
 
 Definition term_at (m : nat) : Prop :=
-  forall e a emit p sg, in_fragment e = true -> rok OG K e = true -> lits_valid e ->
+  forall e a emit p sg, in_fragment e = true -> rokP OG K e -> lits_valid e ->
     tdef (vm_expr e) a emit p sg (ev m a emit (embed e) p sg) m.
 
 Lemma builtin_definite f n a emit p sg : is_builtin n = true -> ev (S f) a emit (EIdent n) p sg <> SFuel.
@@ -81,7 +82,7 @@ Qed.
 Lemma term_rule_call m n a emit p sg : term_at m -> has_orule OG n = true -> is_builtin n = false ->
   tdef (vm_call n) a emit p sg (ev m a emit (EIdent n) p sg) m.
 Proof.
-  intros IH Hr NB. apply (IH (OIdent n)); [|reflexivity|exact Logic.I].
+  intros IH Hr NB. apply (IH (OIdent n)); [|exact Logic.I|exact Logic.I].
   cbn [Refine6.in_fragment]. unfold ident_ok. rewrite NB, Hr. reflexivity.
 Qed.
 
@@ -137,7 +138,7 @@ Proof.
 Qed.
 
 Lemma term_rep_unit m x a emit p sg : term_at m ->
-  in_fragment x = true -> rok OG K x = true -> lits_valid x ->
+  in_fragment x = true -> rokP OG K x -> lits_valid x ->
   tdef (PSequence (PAndThen vm_skip (vm_expr x))) a emit p sg (rep_unit G (ev m) m a emit (embed x) p sg) m.
 Proof.
   intros IH Fx Rx Lx. apply (tdef_le cfg E w _ _ _ _ _ _ (S (S m))); [lia|]. apply tdef_sequence.
@@ -150,7 +151,7 @@ Proof.
 Qed.
 
 Lemma term_rep_loop m x a emit p sg : term_at m ->
-  in_fragment x = true -> rok OG K x = true -> lits_valid x ->
+  in_fragment x = true -> rokP OG K x -> lits_valid x ->
   tdef (PRepeat (PSequence (PAndThen vm_skip (vm_expr x)))) a emit p sg
     (loop m (rep_unit G (ev m) m a emit (embed x)) p sg []) m.
 Proof.
@@ -192,7 +193,7 @@ Qed.
 Lemma term_step m : term_at m -> term_at (S m).
 Proof.
   intros IH e a emit p sg Fr Ro Li.
-  destruct e; cbn [embed VmCompile.vm_expr]; cbn [Refine6.in_fragment Refine6.rok lits_valid] in Fr, Ro, Li.
+  destruct e; cbn [embed VmCompile.vm_expr]; cbn [Refine6.in_fragment Refine6.rokP lits_valid] in Fr, Ro, Li.
   - (* OStr *) definite.
   - (* OInsens *) definite.
   - (* ORange *) definite.
@@ -207,7 +208,7 @@ Proof.
   - (* OPosPred *) cbn [eval]. apply (tdef_lookahead cfg E w true). now apply IH.
   - (* ONegPred *) cbn [eval]. apply (tdef_lookahead cfg E w false). now apply IH.
   - (* OSeq *)
-    apply andb_true_iff in Fr. destruct Fr as [F1 F2]. apply andb_true_iff in Ro. destruct Ro as [R1 R2]. destruct Li as [L1 L2].
+    apply andb_true_iff in Fr. destruct Fr as [F1 F2]. destruct Ro as [R1 R2]. destruct Li as [L1 L2].
     assert (PB : forall p0 sg0, pbsim (PAndThen (vm_expr e1) vm_skip) a emit p0 sg0
                    (sres_bind (ev m a emit (embed e1) p0 sg0) (fun p1 sg1 => skip_with G (ev m) m a emit p1 sg1))).
     { intros p0 sg0. apply pbsim_andthen; [exact Hcfg|exact HE|now apply pvx| |].
@@ -232,14 +233,13 @@ Proof.
     destruct (eval _ _ _ _ m a emit (embed e2) p2 sg2) as [p3 sg3 f3| |]; cbn [sres_bind]; auto.
     now rewrite app_assoc.
   - (* OChoice *)
-    apply andb_true_iff in Fr. destruct Fr as [F1 F2]. apply andb_true_iff in Ro. destruct Ro as [Ro R3].
-    apply andb_true_iff in Ro. destruct Ro as [R1 R2]. destruct Li as [L1 L2].
+    apply andb_true_iff in Fr. destruct Fr as [F1 F2]. destruct Ro as (R1 & R2 & R3). destruct Li as [L1 L2].
     cbn [eval].
-    apply (tdef_orelse cfg E w pp Hcfg HE (Cl e1)); [now apply pvx|now apply cl_of_K|now apply fwd|now apply IH|now apply IH].
+    apply (tdef_orelse cfg E w pp Hcfg HE (ClS e1)); [now apply pvx|now apply cls_of_cleanP|now apply fwd|now apply IH|now apply IH].
   - (* OOpt *)
-    apply andb_true_iff in Ro. destruct Ro as [R1 R2]. cbn [eval]. apply tdef_optional. now apply IH.
+    destruct Ro as [R1 R2]. cbn [eval]. apply tdef_optional. now apply IH.
   - (* ORep *)
-    apply andb_true_iff in Ro. destruct Ro as [R1 R2]. cbn [eval]. unfold rep_from_with. rewrite rep_eq.
+    destruct Ro as [R1 R2]. cbn [eval]. unfold rep_from_with. rewrite rep_eq.
     apply (tdef_le cfg E w _ _ _ _ _ _ (S (S (S m)))); [lia|].
     apply tdef_sequence. apply tdef_optional.
     apply (tdef_andthen cfg E w pp Hcfg HE); [now apply pvx| | |].
